@@ -763,6 +763,23 @@ func checkC09(c *C09Case) Result {
 	if c.Doc2 != nil {
 		o2, m2 = runSel(c.Doc2, text)
 	}
+	if i := strings.Index(text, "=>"); i > 0 && !strings.ContainsAny(text[:i], "[]{}'.: ") {
+		// the same path under another top-level function, evaluated in between (outcome ignored): what `f=>path`
+		// means does not depend on which other functions were applied to that path before
+		for _, other := range []string{"mix", "distinct", "vfwrap", "vfcount", "keep"} {
+			if other != text[:i] {
+				runSel(c.Doc, other+text[i:])
+				res.Labels = append(res.Labels, "other-function-over-the-same-path-in-between")
+				break
+			}
+		}
+		for _, other := range []string{"vfcount", "distinct"} {
+			if other != text[:i] {
+				runSel(c.Doc, other+text[i:])
+				break
+			}
+		}
+	}
 	o3, m3 := runSel(c.Doc, text)
 	res.Execs = 3
 	for _, m := range []string{m1, m2, m3} {
